@@ -193,3 +193,35 @@ Example C07_kernel_runs :
   exec_fun F64 XF64 program 30 "c_cell2rowcol" [AVI 4; AVI 3; AVI 3; AVArrI [7; 0; 12]; AVArrI [9; 9; 9; 9; 9; 9]]
   = Ok (RI 0, [VArrI [7; 0; 12]; VArrI [2; 1; 0; 0; -1; -1]]).
 Proof. vm_compute. reflexivity. Qed.
+
+(* ================================================================== *)
+(* BINARY64: c_coord2cell refines the model in IEEE binary64 for grids of at *)
+(* most 2^53 rows / columns (floor, comparison and conversion laws proved *)
+(* for primitive floats with Flocq).                                  *)
+(* ================================================================== *)
+From Coq Require Import String Lia PrimFloat.
+From Hy Require Import Base.Num Base.MiniC Gen.KernelsAst Gen.Consts Model.Grid.
+From Hy Require Proofs.F64Laws Proofs.RefineGridGeom.
+Import ListNotations.
+Open Scope string_scope.
+Open Scope list_scope.
+Open Scope Z_scope.
+
+Theorem C07_kernel_floor_laws_binary64 :
+  RefineGridGeom.floor_laws F64 XF64 (2 ^ 53).
+Proof. exact @F64Laws.floor_laws_F64. Qed.
+Print Assumptions C07_kernel_floor_laws_binary64.
+
+Theorem C07_kernel_coord2cell_refines_model_binary64 :
+  forall (nrows ncols : Z) (xll yll csz : float) (xy : list float) (junk : list Z) (n : nat),
+       nrows <= 2 ^ 53 ->
+       ncols <= 2 ^ 53 ->
+       Datatypes.length xy = (2 * Datatypes.length junk)%nat ->
+       (Datatypes.length junk < n)%nat ->
+       exec_fun F64 XF64 program (S n) "c_coord2cell"
+         [AVI nrows; AVI ncols; AVF xll; AVF yll; AVF csz; AVI (zlen junk); AVArrF xy; AVArrI junk] =
+       Ok
+         (RI 0,
+          [VArrF xy; VArrI (map (coord2cell F64 nrows ncols xll yll csz) (RefineGridGeom.pairs xy))]).
+Proof. exact @F64Laws.refine_coord2cell_raw_F64. Qed.
+Print Assumptions C07_kernel_coord2cell_refines_model_binary64.
